@@ -23,6 +23,7 @@ structure TableDP where
   rankMode : Nat       -- 0 total (mask order), 1 coarse (popcount)
   domMode : Nat        -- 0 none, 1 "same state, smaller value"
   slack : Int
+  initVal : Int
   tab : List (Option (Nat × Int))   -- index (k·B + b)·D + d
   imp : List Bool                   -- index k·B + b
 
@@ -75,7 +76,7 @@ def domain (k : Nat) (code : Int) : List Int :=
   ((List.range T.D).filter (fun d => (T.members code).any (fun b => (T.entry k b d).isSome))).map (fun (d : Nat) => Int.ofNat d)
 
 def problem : Problem Int :=
-  { nbVars := T.n, init := T.mkCode 1 0, initVal := 0,
+  { nbVars := T.n, init := T.mkCode 1 0, initVal := T.initVal,
     trans := T.trans, cost := T.cost,
     nextVar := fun depth _ => if depth < T.n then some depth else none,
     domain := T.domain,
